@@ -11,7 +11,6 @@ import (
 	"context"
 	"io"
 	"net/http"
-	"sync/atomic"
 	"time"
 
 	"github.com/bluenviron/gohlslib/v2/pkg/codecs"
@@ -218,61 +217,5 @@ func VerifH_C12_client() {
 		verifFail("C12", "exactly-one-error")
 	default:
 	}
-	verifReach("end")
-}
-
-// VerifH_C12_lowlatency: the real Low-Latency downloader loop (blocking playlist reloads + preload hints) against a
-// scripted server; one request - a preload hint or a playlist reload, chosen symbolically - never completes (the
-// server holds the response, or stalls in its body, until the request is cancelled, as an LL-HLS origin does for a
-// part that is not ready). Termination (Close cancels the routine's context) must still make the routine return.
-func VerifH_C12_lowlatency() {
-	verifReqLog, verifPlaylists = nil, nil
-	mk := func(k int) *playlist.Media {
-		return &playlist.Media{MediaSequence: 5, TargetDuration: 2, ServerControl: &playlist.MediaServerControl{CanBlockReload: true},
-			Segments:    []*playlist.MediaSegment{{Duration: time.Second, URI: "s0.mp4"}},
-			PreloadHint: &playlist.MediaPreloadHint{URI: "part" + itoaSmall(k) + ".mp4"}}
-	}
-	d := verifDownloader(mk(0))
-	stallAt := verifChoice("stallat", 4) // index of the request that never completes: hint, playlist, hint, playlist
-	inBody := verifBool("stallinbody")
-	n, k := 0, 0
-	verifFaultHook = func(req *http.Request) (*http.Response, error) {
-		i := n
-		n++
-		if i != stallAt {
-			return nil, nil
-		}
-		if inBody {
-			return &http.Response{StatusCode: 200, Body: &vStallBody{ctx: req.Context()}, Header: make(http.Header), Request: req}, nil
-		}
-		<-req.Context().Done()
-		return nil, &verifHTTPError{"context canceled"}
-	}
-	defer func() { verifFaultHook = nil }()
-	verifResponder = func(req *http.Request) (int, []byte, error) {
-		if containsStr(req.URL.String(), ".m3u8") {
-			k++
-			return 200, verifPlaylistBlob(mk(k)), nil
-		}
-		return 200, []byte{'P', byte(k)}, nil
-	}
-	ctx, cancel := context.WithCancel(context.Background())
-	var returned atomic.Bool
-	go func() {
-		d.runLowLatency(ctx) //nolint:errcheck
-		returned.Store(true)
-	}()
-	verifQuiesce()
-	verifReach("stalled")
-	verifAssert("C12", "downloader-waits-for-the-held-response", !returned.Load())
-	cancel() // what Close does to every routine of the client
-	if verifSymbolic() {
-		verifQuiesce()
-	} else {
-		for i := 0; i < 50 && !returned.Load(); i++ {
-			time.Sleep(20 * time.Millisecond)
-		}
-	}
-	verifAssert("C12", "downloader-returns-after-cancellation", returned.Load())
 	verifReach("end")
 }
